@@ -376,6 +376,7 @@ func ratIsIdentity(m [][]*big.Rat) (bool, string) {
 
 func (c *Ctx) checkClosedFormEigens() {
 	L := c.L
+	c.checkExpTermsFilled("exp-terms-filled")
 	c.checkNoLibraryGlobalWrites("library-global-state")
 	L.Rule("eigen-literal", "the literal right and left eigenvector matrices of a closed-form model satisfy R·L = I exactly (rational arithmetic on the source constants); the first eigenvalue is the constant 0, the first row of L is the stationary distribution and the first column of R is all ones; for JC R·diag(λ)·L equals the Jukes-Cantor generator with off-diagonal 1/3 and diagonal -1")
 	for _, mname := range []string{"JCModel", "K2PModel"} {
@@ -1788,4 +1789,64 @@ func (c *Ctx) checkF84EigenSystem() {
 	L.Check(okRows && okDB && okRate, "eigen-literal", label, "R·diag(λ)·L is a reversible generator of rate 1 (symbolic)", c.P.Pos(fd.Pos()),
 		"zero row sums, π_i·Q_ij = π_j·Q_ji for the six pairs, −Σ π_i·Q_ii = 1, as identities in πA, πC, πG, κ",
 		fmt.Sprintf("the rate matrix reconstructed from the eigen system fails a model-independent clause (zero row sums: %v, detailed balance: %v, mean rate 1: %v)", okRows, okDB, okRate))
+}
+
+// checkExpTermsFilled: in (*Pij).SetLength the scratch vector of exp(λ_i·l) is reused between
+// calls, so every entry must be rewritten by every call that recomputes the matrix: the store of
+// the exponential dominates every back edge of its loop (no `continue` in front of it). A skipped
+// entry keeps the term of the previous branch length.
+func (c *Ctx) checkExpTermsFilled(rule string) {
+	L := c.L
+	L.Rule(rule, "in (*Pij).SetLength the store of exp(λ_i·l) into the reused scratch vector is executed in every iteration of its loop (its block dominates every back edge): no entry keeps the value of an earlier branch length")
+	r := c.fn("models", "*Pij", "SetLength")
+	if !r.ok() {
+		return
+	}
+	fn := r.F
+	n := 0
+	loops := naturalLoops(fn)
+	allInstrs(fn, func(in ssa.Instruction) {
+		st, ok := in.(*ssa.Store)
+		if !ok {
+			return
+		}
+		if _, isIA := st.Addr.(*ssa.IndexAddr); !isIA {
+			return
+		}
+		v := st.Val
+		for {
+			if cv, ok := v.(*ssa.Convert); ok {
+				v = cv.X
+				continue
+			}
+			break
+		}
+		call, ok := v.(*ssa.Call)
+		if !ok || !isPkgFunc(call.Common(), "math", "Exp") {
+			return
+		}
+		var lp *loop
+		for _, l := range loops {
+			if l.Blocks[st.Block()] && (lp == nil || len(l.Blocks) < len(lp.Blocks)) {
+				lp = l
+			}
+		}
+		if lp == nil {
+			return
+		}
+		n++
+		okAll := true
+		for i, p := range lp.Head.Preds {
+			_ = i
+			if lp.Blocks[p] && !st.Block().Dominates(p) {
+				okAll = false
+			}
+		}
+		L.Check(okAll, rule, r.label, "every eigen term rewritten", c.P.Pos(st.Pos()), "the store dominates every back edge of its loop",
+			"an iteration of the loop can skip the store of exp(λ_i·l): the reused scratch entry keeps the term computed for the previous branch length")
+	})
+	if n == 0 {
+		L.Unknown(rule, r.label, "every eigen term rewritten", c.P.Pos(fn.Pos()), "no store of math.Exp into a vector inside a loop found")
+	}
+	L.Floor(rule, 1, "one loop")
 }
